@@ -45,6 +45,7 @@ import (
 	istatus "google.golang.org/grpc/internal/status"
 	"google.golang.org/grpc/internal/syscall"
 	transportinternal "google.golang.org/grpc/internal/transport/internal"
+	"google.golang.org/grpc/internal/verifhook"
 	"google.golang.org/grpc/mem"
 
 	"google.golang.org/grpc/codes"
@@ -536,6 +537,7 @@ func (t *http2Server) operateHeaders(ctx context.Context, frame *http2.MetaHeade
 	if len(mdata) > 0 {
 		s.ctx = metadata.NewIncomingContext(s.ctx, mdata)
 	}
+	verifhook.At("h2s.beforeRegister", t)
 	t.mu.Lock()
 	if t.state != reachable {
 		t.mu.Unlock()
